@@ -7,7 +7,7 @@ from world import FIELDS, K, KINDS, PARENT_ATTR, PARENT_KIND, SETM, W, opt
 
 DEFAULT_POOL = {"IR": 2, "Module": 3, "Section": 3, "ByteInterval": 4, "CodeBlock": 3, "DataBlock": 3, "ProxyBlock": 2, "Symbol": 4}
 
-ADDRS = [None, 0, 0, 4, 8, 10, 10, 16, 16, 100, (1 << 64) - 16]
+ADDRS = [None, 0, 0, 4, 8, 10, 10, 16, 16, 100, (1 << 64) - 16, (1 << 64) - 8]        # (the last one: blocks at offsets 8 and 12 lie at and beyond 2**64)
 SIZES = [0, 0, 1, 2, 4, 8, 16]
 OFFS = [0, 0, 1, 2, 4, 7, 8, 12]
 
@@ -62,6 +62,36 @@ class Hist:
         self.emit(it)
         self.by_kind[kind].append(n)
         return n
+
+    def op_new_with_parent(self):
+        """a node constructed WITH its parent in the middle of a history (Section(module=m), CodeBlock(byte_interval=bi, ..), Symbol(..,
+        module=m), Module(ir=ir), ..): for the model `new` followed by the attach through the parent attribute -- the same state
+        reached along another route"""
+        rng = self.rng
+        if getattr(self, "ctor_kids", 0) >= self.cfg.get("ctor_kids", 4):
+            return False
+        kind = rng.choice(["Module", "Section", "ByteInterval", "CodeBlock", "DataBlock", "ProxyBlock", "Symbol", "Symbol"])
+        ps = self.by_kind[PARENT_KIND[kind]]
+        if not ps or not self.by_kind[kind]:
+            return False
+        self.ctor_kids = getattr(self, "ctor_kids", 0) + 1
+        par = rng.choice(ps)
+        n = self.next_num
+        self.next_num += 1
+        a = rng.choice(ADDRS) if kind == "ByteInterval" else None
+        sz = rng.choice(SIZES) if kind in ("ByteInterval", "CodeBlock", "DataBlock") else 0
+        off = rng.choice(OFFS) if kind in ("CodeBlock", "DataBlock") else 0
+        nm = rng.randrange(6) if kind == "Symbol" else 0
+        pay = []
+        if kind == "Symbol":
+            blocks = self.by_kind["CodeBlock"] + self.by_kind["DataBlock"] + self.by_kind["ProxyBlock"]
+            r = rng.random()
+            pay = [1, rng.choice(blocks)] if (r < 0.5 and blocks) else ([0, rng.choice([0, 1, 4096])] if r < 0.75 else [])
+        it = [1, n, K[kind], self.fresh_uuid(), opt(a), sz, off, nm, pay]
+        self.emit([51] + it[1:] + [par])
+        if n in self.w.obj:
+            self.by_kind[kind].append(n)
+        return True
 
     def op_new_with_children(self):
         """construct a new parent with children passed to the constructor (free nodes or nodes owned elsewhere): the model sees
@@ -129,6 +159,8 @@ class Hist:
     def op_setparent(self):
         self.maybe_copy()
         rng = self.rng
+        if rng.random() < self.cfg.get("ctor_kid_rate", 0.06) and self.op_new_with_parent():
+            return
         kind = rng.choice([k for k in KINDS if k != "IR" and self.by_kind[k]])
         c = rng.choice(self.by_kind[kind])
         ps = self.by_kind[PARENT_KIND[kind]]
@@ -198,7 +230,7 @@ class Hist:
         cur = self.w.kids(ir)
         n = len(cur)
         meth = rng.choice(self.cfg.get("modm", ["append", "insert", "extend", "iadd", "remove", "pop", "delitem", "delslice", "setitem",
-                                                "setslice", "setext", "clear", "reverse"]))
+                                                "setslice", "setext", "delext", "clear", "reverse"]))
         idx = rng.choice([0, -1, 1, n - 1, n, -n, -n - 1, n + 2, 2]) if rng.random() < 0.5 else (rng.randrange(n) if n else 0)
         if rng.random() < 0.06:
             idx = rng.choice([1 << 63, (1 << 63) - 1, -(1 << 63), -(1 << 63) - 1, (1 << 64) - 1])      # beyond the machine word: OverflowError from insert / pop, before anything moves
@@ -228,6 +260,8 @@ class Hist:
             self.emit([9, ir, idx])
         elif meth == "delslice":
             self.emit([10, ir, ob(), ob()])
+        elif meth == "delext":
+            self.emit([33, ir, ob(), ob(), rng.choice([2, -1, -2, 3, -3, -1, 0, 1])])          # del modules[a:b:c], forwards and backwards
         elif meth == "setitem":
             v = rng.choice(mods)
             k = idx
@@ -290,7 +324,21 @@ class Hist:
                 self.emit([29, bi, v])
         elif r < 0.65 and (self.by_kind["CodeBlock"] or self.by_kind["DataBlock"]):
             b = rng.choice(self.by_kind["CodeBlock"] + self.by_kind["DataBlock"])
-            if rng.random() < 0.5:
+            if rng.random() < self.cfg.get("huge_rate", 0.04):
+                # a magnitude beyond the 64-bit fields of the file format: a Python int like any other for the object graph and its
+                # indexes.  An implementation that REFUSES the value (an exception) must leave everything as it was: the model is
+                # not told about a refused assignment, and the lookups that follow are judged as usual
+                it = [rng.choice([15, 16]), b, rng.choice([1 << 64, (1 << 64) + 5, 1 << 70])]
+                rep = self.w.run(it)
+                if rep[0] == 0:
+                    self.items.append(it)
+                    self.replies.append(rep)
+                    self.huge_taken = getattr(self, "huge_taken", 0) + 1
+                else:
+                    self.huge_refused = getattr(self, "huge_refused", 0) + 1
+                    self.items.append([53] + it)          # (replayed as "the assignment is attempted and refused again")
+                    self.replies.append([0])
+            elif rng.random() < 0.5:
                 self.emit([15, b, rng.choice(SIZES)])
             else:
                 self.emit([16, b, rng.choice(OFFS)])
